@@ -338,6 +338,8 @@ func runC13(c *core.Case) *core.Result {
 	// client reports through its error handler, without becoming SUBSCRIBED and (when the
 	// failed command is a read) without any stored change; the retry is then judged as usual.
 	abortedFirst := func(e *c13entry) *core.Result {
+		// the fault point is named by kind (read / write) and collection, not by the command a
+		// particular version of the repository layer happens to use for it
 		points := [][2]string{{"find", "-_-Datatypes"}, {"find", "-_-Datatypes"}, {"update", "-_-Datatypes"}, {"insert", "-_-Operations"}, {"find", "-_-Operations"}}
 		pt := points[r.Intn(len(points))]
 		var mu sync.Mutex
@@ -345,7 +347,7 @@ func runC13(c *core.Case) *core.Result {
 		w.b.DB.SetPlan(func(cmd *fakemongo.Cmd) fakemongo.Action {
 			mu.Lock()
 			defer mu.Unlock()
-			if !hit && cmd.Name == pt[0] && cmd.Coll == pt[1] {
+			if !hit && cmd.Coll == pt[1] && cmd.IsData() && isWrite(cmd.Name) == (pt[0] != "find") {
 				hit = true
 				return fakemongo.Action{Fail: true}
 			}
@@ -397,7 +399,7 @@ func runC13(c *core.Case) *core.Result {
 		if e.d.DT.GetState() == model.StateOfDatatype_SUBSCRIBED {
 			return c.Violation("subscribed-after-abort", "the server aborted the %s (failing %s %s) but the datatype is in state SUBSCRIBED", mode, pt[0], pt[1])
 		}
-		if pt[0] == "find" {
+		if pt[0] == "find" { // a read
 			if d := fakemongoDiff(e.before, w.b.DB.Flat(true)); len(d) > 0 {
 				return c.Violation("aborted-but-changed", "the aborted %s (failing %s %s) changed stored data: %v", mode, pt[0], pt[1], d)
 			}
